@@ -689,6 +689,14 @@ def handle (case obs : List String) : String × String :=
   | "srv" :: rest => handleSrv rest obs
   | "px" :: rest => handlePx rest obs
   | "mx" :: rest => handleMx rest obs
+  | ["gcod", _pkg, _svc, kinds] =>
+    -- every method names its own codec (`Method::codec_path`); both generated sides construct, for method j, codec j
+    -- (seed C11i).  Tie only: the codec path is not part of `Model/Codegen`; the expected line is the demand itself.
+    let n := kinds.length
+    let idx := String.intercalate "," ((List.range n).map toString)
+    let expected := ["server:" ++ idx, "client:" ++ idx]
+    (String.intercalate " " expected,
+     verdict [("client-and-server-use-the-methods-codec", obs == expected)])
   | "gx" :: rest => handleGx rest obs
   | "gseq" :: rest => handleGseq rest obs
   | "cmt" :: rest => handleCmt rest obs
